@@ -461,17 +461,25 @@ func checkEventSwitch(p *Prog, r *Report, ru *Rule) {
 	ru.AtLeast(2, "event types")
 	/* Disconnected → printCallbackHelp under !oneShell. */
 	disc, _ := iobConst(p, "EventTypeDisconnected")
-	help := p.Func(hsrvPkg, "Server", "printCallbackHelp")
+	helpF := p.Field(hsrvPkg, "Server", "cbHelp")
 	oneShell := p.Field(hsrvPkg, "Server", "oneShell")
 	ifi := handled[disc]
-	if nil == ifi || nil == help || nil == oneShell {
-		ru.Unproven("watchIOBEvents:rearm", w.Pos(), "disconnected case, printCallbackHelp or Server.oneShell not found")
+	if nil == ifi || nil == helpF || nil == oneShell {
+		ru.Unproven("watchIOBEvents:rearm", w.Pos(), "disconnected case, Server.cbHelp or Server.oneShell not found")
 		return
 	}
+	/* The help is printed where the help text (Server.cbHelp) is handed to
+	one of the server's print functions (a helper doing that is folded in). */
 	var call ssa.Instruction
 	eachInstr(w, func(i ssa.Instruction) {
-		if c := callCommon(i); nil != c && c.StaticCallee() == help {
-			call = i
+		c := callCommon(i)
+		if nil == c {
+			return
+		}
+		for _, a := range append(callArgs(c), variadicElems(c)...) {
+			if fv, _ := loadedField(stripConv(a, false)); fv == helpF {
+				call = i
+			}
 		}
 	})
 	if nil == call {
@@ -484,17 +492,17 @@ func checkEventSwitch(p *Prog, r *Report, ru *Rule) {
 		succ = 0
 	}
 	if !edgeDominates(ifi, succ, call) {
-		ru.Bad("watchIOBEvents:rearm", posOf(call), "printCallbackHelp is not confined to the disconnected case")
+		ru.Bad("watchIOBEvents:rearm", posOf(call), "the print of the callback help is not confined to the disconnected case")
 		return
 	}
 	/* Every path from the disconnected edge reaches the call unless
 	oneShell is true. */
 	guard := guardingFieldTest(w, call, oneShell)
 	if nil == guard {
-		ru.Bad("watchIOBEvents:rearm", posOf(call), "printCallbackHelp is not guarded by !oneShell")
+		ru.Bad("watchIOBEvents:rearm", posOf(call), "the print of the callback help is not guarded by !oneShell")
 		return
 	}
-	ru.OK("watchIOBEvents:rearm", posOf(call), "disconnected ⇒ printCallbackHelp unless -one-shell")
+	ru.OK("watchIOBEvents:rearm", posOf(call), "disconnected ⇒ the callback help is printed, unless -one-shell")
 }
 
 // guardingFieldTest returns the If testing a load of field f whose false
